@@ -36,6 +36,8 @@ fn try_copy_file_range(
     out_off: Option<&mut u64>,
     bytes: u64,
 ) -> Option<Result<usize>> {
+    #[cfg(xcp_verif)]
+    use crate::verif::copy_file_range;
     let cfr_ret = copy_file_range(infd, in_off, outfd, out_off, bytes as usize);
 
     match cfr_ret {
@@ -147,6 +149,8 @@ impl FiemapReq {
 }
 
 fn fiemap(fd: &File, req: &mut FiemapReq) -> Result<bool> {
+    #[cfg(xcp_verif)]
+    use crate::verif::libc_shim as libc;
     // FIXME: Rustix has an IOCTL mini-framework but it's a little
     // tricky and is unsafe anyway. This is simpler for now.
     let req_ptr: *mut FiemapReq = req;
@@ -253,6 +257,8 @@ pub fn copy_node(src: &Path, dest: &Path) -> Result<()> {
 /// updates. Only certain filesystems support this; if not supported
 /// the function returns `false`.
 pub fn reflink(infd: &File, outfd: &File) -> Result<bool> {
+    #[cfg(xcp_verif)]
+    use crate::verif::libc_shim as libc;
     if unsafe { libc::ioctl(outfd.as_raw_fd(), FICLONE as u64, infd.as_raw_fd()) } != 0 {
         let oserr = io::Error::last_os_error();
         match oserr.raw_os_error() {
